@@ -66,7 +66,8 @@ def gen(cls, idx, rng, tier):
         m = par.gen_faults(rng, cls, side)
     chips = par.live_chips(m)
     nv = rng.randint(1, 30)
-    place = [("v%d" % i, rng.choice(chips)) for i in range(nv)]
+    place = [(("v%d" % i) if (i + nv) % 5 else ("pop", i), rng.choice(chips))
+             for i in range(nv)]
     allocs, endpoints = {}, []
     for v, xy in place:
         k = rng.random()
